@@ -1,10 +1,48 @@
 import AutoVerif.Drv.Round
 import AutoVerif.Spec.C02
+import AutoVerif.Model.Shuffle
 open Lean AutoVerif.Codec
 namespace AutoVerif.C02
 open AutoVerif.Outcome AutoVerif.Round
 
+/-- a shuffle case: the swap calls the real `rand.Shuffle` made for (length, key) were recorded by the harness; the model
+applies them to every string of that length and must produce what the real `ShuffleString` returned; the outputs must
+be pairwise different for pairwise different inputs, and the same swap calls must have been recorded on a second
+source built from the same key (the ordering depends on nothing but the key) -/
+def handleShuffle (sj impl : Json) : R Reply := do
+  let strs ← listF asStr sj "strs"
+  let sw ← listF (fun j => do
+      match j with
+      | .arr a => if h : a.size = 2 then pure ((← asNat a[0]), (← asNat a[1])) else throw "swap pair"
+      | _ => throw "swap pair") sj "swaps"
+  let n ← natF sj "n"
+  let got ← listF asStr impl "out"
+  let sw2 ← listF (fun j => do
+      match j with
+      | .arr a => if h : a.size = 2 then pure ((← asNat a[0]), (← asNat a[1])) else throw "swap pair"
+      | _ => throw "swap pair") impl "swapsAgain"
+  let want := strs.map (fun s => Shuffle.shuffleString s sw)
+  let agree := decide (got = want)
+  let shape := Shuffle.fisherYates n sw
+  let sameSrc := decide (sw2 = sw)
+  -- the property's clause: the ordering key is a function of (digest, sequence number) alone and tells ids apart
+  let distinctIn := strs.eraseDups
+  let pairs := (strs.zip got).eraseDups
+  let inj := decide (pairs.length = distinctIn.length) &&                      -- one output per input
+    decide ((pairs.map (·.2)).eraseDups.length = distinctIn.length)             -- different inputs, different outputs
+  let lens := (strs.zip got).all (fun p => decide (p.1.length = p.2.length))
+  let si := inj && lens && sameSrc
+  pure { agree := agree && shape, specModel := true, specImpl := si,
+         diff := if !agree then s!"ShuffleString differs from the recorded swaps applied to the runes: model {want.take 3} impl {got.take 3}"
+                 else if !shape then s!"rand.Shuffle's calls for n={n} are not the Fisher–Yates sequence the model expects: {sw.take 6}" else "",
+         fail := if si then "" else if !sameSrc then "a second source built from the same key made different swap calls: the ordering depends on more than the key"
+                 else if !lens then "a shuffled id has another length than the id" else "two different ids of one length received the same shuffled key",
+         nontrivial := decide (strs.length ≥ 2 && n ≥ 2), tags := ["shuffle", s!"shuffle-len:{if n ≥ 64 then "64+" else if n ≥ 8 then "8-63" else toString n}"] }
+
 def handle (input impl : Json) : R Reply := do
+  match fieldD input "shuffle" .null with
+  | .null => pure ()
+  | sj => return (← handleShuffle sj impl)
   let rd ← decode input
   let want := modelOutcome rd
   let wantRev := modelOutcomeRev rd
